@@ -21,7 +21,7 @@ import (
 )
 
 var probeNames = []string{"query_present", "query_with_slash", "query_with_trackid", "path_segment_like_trackid", "percent_escape",
-	"userinfo_present", "userinfo_password_only", "ipv6_authority", "hostname_authority", "record_variant", "control_relative", "control_absolute",
+	"userinfo_present", "userinfo_password_only", "setup_challenged_and_repeated", "ipv6_authority", "hostname_authority", "record_variant", "control_relative", "control_absolute",
 	"control_query_style", "control_leading_slash", "content_base_absent", "session_level_control", "setup_subset_or_permuted",
 	"script_completed", "media_identity_checked", "keepalive_observed", "authenticated_retry", "raw_path_kept", "udp_transport",
 	"control_empty_or_star", "base_other_host", "content_base_relative", "request_lines_checked", "tunnel_http", "tunnel_ws", "back_channel_in_stream"}
